@@ -404,10 +404,31 @@ def lean_instr(i):
     return f'.{i[0]} {"true" if i[1] else "false"}'
 
 
+def _else_of_early_return(fn):
+    """`if c: A; return r` followed by `B; return r` (the same expression) is read as `if c: A else: B; return r`"""
+    import copy
+    fn = copy.deepcopy(fn)
+    body = fn.body
+    for i, st in enumerate(body[:-1]):
+        last = body[-1]
+        if (isinstance(st, ast.If) and not st.orelse and st.body and isinstance(st.body[-1], ast.Return)
+                and isinstance(last, ast.Return) and ast.dump(st.body[-1].value or ast.Constant(None)) ==
+                ast.dump(last.value or ast.Constant(None))
+                and not any(isinstance(x, ast.Return) for s in st.body[:-1] for x in ast.walk(s))
+                and not any(isinstance(x, ast.Return) for s in body[i + 1:-1] for x in ast.walk(s))
+                and all(isinstance(n, (ast.Name, ast.Tuple, ast.Load, ast.Constant))
+                        for n in ast.walk(last.value or ast.Constant(None)))):
+            st.body = st.body[:-1] or [ast.Pass()]
+            st.orelse = body[i + 1:-1] or [ast.Pass()]
+            fn.body = body[:i + 1] + [last]
+            return ast.fix_missing_locations(fn)
+    return fn
+
+
 def gen_blob(repo):
     util, comms, model = _tree(repo, UTIL), _tree(repo, COMMS), _tree(repo, MODEL)
     enc, tools, sep = read_encode(find_def(util, 'encode'))
-    mv, mneg = read_move(find_def(util, 'move'))
+    mv, mneg = read_move(_else_of_early_return(find_def(util, 'move')))
     srv = read_set(find_def(comms, 'Worker.do'), mv, mneg)
     read_set_prime(find_def(comms, 'Connector._set_prime'))
     f1 = read_flag(find_def(model, 'Interface._update'), 'Interface._update')
